@@ -1,4 +1,6 @@
 import Orca.Lemmas.SemSim
+import Orca.Gen.ResolverOutline
+import Orca.Model.ResolverOutlineSpec
 import Orca.Lemmas.SemBranch
 import Orca.Lemmas.SpecialFlat
 import Orca.Lemmas.StackSpec
@@ -106,3 +108,11 @@ theorem c19_flat_every_plan (f : Func) (hsp : f.hasSpecial = true) (hentry : f.e
   lower_eq_spec f hsp hentry hexit hp out hs
 
 end Orca.Lower
+
+/-- **The tie to the source (regenerated on every run).** The skeletons of `plan_resolution_block_exit` and of the two functions that
+    park an unflagged body are what the second stage of `planSpecial` (`stageExit`, `addFlat`) was transcribed from. -/
+theorem c19_block_exit_code_reviewed :
+    Orca.Gen.Outline.plan_resolution_block_exit = Orca.Lower.Outline.plan_resolution_block_exit
+    ∧ Orca.Gen.Outline.save_not_flagged_body_to_resolve = Orca.Lower.Outline.save_not_flagged_body_to_resolve
+    ∧ Orca.Gen.Outline.save_not_flagged_body_to_resolve_inner = Orca.Lower.Outline.save_not_flagged_body_to_resolve_inner :=
+  ⟨rfl, rfl, rfl⟩
